@@ -333,3 +333,48 @@ pub proof fn lemma_empty_sizes(ps: Seq<(usize, usize, bool)>, per_page: int, siz
     requires ps.len() == 0
     ensures sizes_ok(ps, per_page, size), sum_bytes(ps) == 0, sum_vals(ps) == 0
 { }
+
+// ---- shared with the read-side units (U16, U20) ----
+// where the scan stands inside the page table
+pub proof fn lemma_page_of(s: Seq<Page>, per_page: int, size: int, region_len: int, pos: int, end: int)
+    requires pages_wf(s, per_page, size, region_len), per_page > 0, 0 <= pos < end <= pages_len(s, per_page)
+    ensures
+        pos / per_page < s.len(),
+        // the page holds every requested element that falls into it
+        pcount(s[pos / per_page]) >= (if end - (pos / per_page) * per_page < per_page { end - (pos / per_page) * per_page } else { per_page }),
+        pos / per_page < s.len() - 1 ==> pcount(s[pos / per_page]) == per_page,
+        pos - (pos / per_page) * per_page < pcount(s[pos / per_page]),
+{
+    let pi = pos / per_page;
+    let n = s.len() as int;
+    vstd::arithmetic::div_mod::lemma_fundamental_div_mod(pos, per_page);
+    assert(pos == per_page * pi + pos % per_page);
+    assert(per_page * pi == pi * per_page) by (nonlinear_arith);
+    assert(n > 0);
+    // pos < pages_len = (n-1)*pp + count(last), count(last) <= pp  ==>  pi <= n-1
+    assert(pi <= n - 1) by (nonlinear_arith) requires pos < (n - 1) * per_page + pcount(s.last()), pcount(s.last()) <= per_page, pos == pi * per_page + pos % per_page, 0 <= pos % per_page, per_page > 0;
+    if pi < n - 1 { assert(pcount(s[pi]) == per_page); }
+    else { assert(s[pi] == s.last()); assert(pi * per_page == (n - 1) * per_page); }
+}
+
+
+// consecutive pages are contiguous: the bytes of pages a..b (exclusive) are pend(s[b-1]) - s[a].start
+pub proof fn lemma_run(s: Seq<Page>, per_page: int, size: int, region_len: int, a: int, b: int)
+    requires pages_wf(s, per_page, size, region_len), 0 <= a < b <= s.len()
+    ensures s[a].start <= pend(s[b - 1]) <= region_len, b < s.len() ==> s[b].start == pend(s[b - 1]), s[a].start >= HEADER_OFFSET
+{
+    lemma_ends_monotone(s, per_page, size, region_len, b);
+    lemma_ends_monotone(s, per_page, size, region_len, a);
+    lemma_starts_monotone(s, per_page, size, region_len, a, b);
+    assert(s[a].start == start_of(s, a));
+}
+pub proof fn lemma_starts_monotone(s: Seq<Page>, per_page: int, size: int, region_len: int, a: int, b: int)
+    requires pages_wf(s, per_page, size, region_len), 0 <= a <= b <= s.len()
+    ensures start_of(s, a) <= start_of(s, b)
+    decreases b - a
+{
+    if a < b {
+        lemma_starts_monotone(s, per_page, size, region_len, a, b - 1);
+        assert(s[b - 1].start == start_of(s, b - 1));
+    }
+}
